@@ -213,6 +213,36 @@ func (ev *Evaler) AddModule(name string, mod *Ns) {
 	ev.modules[name] = mod
 }
 
+// Returns the module installed under the given key, if any.
+func (ev *Evaler) loadedModule(key string) (*Ns, bool) {
+	ev.mu.RLock()
+	defer ev.mu.RUnlock()
+	ns, ok := ev.modules[key]
+	return ns, ok
+}
+
+// Installs a module under the given key unless one is installed already.
+// Returns the module that is installed under the key afterwards, and whether
+// it is the one passed in.
+func (ev *Evaler) installModule(key string, mod *Ns) (*Ns, bool) {
+	ev.mu.Lock()
+	defer ev.mu.Unlock()
+	if installed, ok := ev.modules[key]; ok {
+		return installed, false
+	}
+	ev.modules[key] = mod
+	return mod, true
+}
+
+// Removes the module installed under the given key if it is the given one.
+func (ev *Evaler) uninstallModule(key string, mod *Ns) {
+	ev.mu.Lock()
+	defer ev.mu.Unlock()
+	if ev.modules[key] == mod {
+		delete(ev.modules, key)
+	}
+}
+
 // ValuePrefix returns the prefix to prepend to value outputs when writing them
 // to terminal.
 func (ev *Evaler) ValuePrefix() string {
@@ -421,8 +451,8 @@ func (ev *Evaler) Check(src parse.Source, w io.Writer) (error, []string, error) 
 // errors. If w is not nil, deprecation messages are written to it.
 func (ev *Evaler) CheckTree(tree parse.Tree, w io.Writer) ([]string, error) {
 	ev.mu.RLock()
-	b, g, m := ev.builtin, ev.global, ev.modules
+	b, g, m := ev.builtin, ev.global, mapKeys(ev.modules)
 	ev.mu.RUnlock()
-	_, autofixes, compileErr := compile(b.static(), g.static(), mapKeys(m), tree, w)
+	_, autofixes, compileErr := compile(b.static(), g.static(), m, tree, w)
 	return autofixes, compileErr
 }
